@@ -13,6 +13,7 @@ mod par;
 mod irgen;
 mod walkgen;
 mod walkrun;
+mod exprgen;
 mod out;
 mod props;
 mod rng;
@@ -30,7 +31,8 @@ fn main() {
         usage();
     }
     // a panic of code under test is data: silence the default hook output
-    if std::env::var_os("CWE_CONF_DEBUG").is_none() && std::env::var("VERIF_PANIC_TRACE").is_err() {
+    // (CWE_CONF_DEBUG / VERIF_PANIC_TRACE / VERIF_DEBUG keep the default hook, to debug the harness itself)
+    if std::env::var_os("CWE_CONF_DEBUG").is_none() && std::env::var("VERIF_PANIC_TRACE").is_err() && std::env::var("VERIF_DEBUG").is_err() {
         std::panic::set_hook(Box::new(|_| {}));
     }
     let mut seed = 1u64;
